@@ -26,11 +26,14 @@ published one-step algorithm off the surface (< 1e-6 m within 100 km, < 2 mm up 
 1e-8 m against its own exact-arithmetic result) and all floating-point error.
 -/
 import Midgard.Proofs.GeoReal
+import Midgard.Proofs.GeoAccuracy
 import Midgard.Proofs.SourceTie
 import Midgard.Model.Geodetic
 import Midgard.Model.Rotation
 import Midgard.Generated.Ellipsoids
 import Midgard.Generated.EllipsoidFlow
+import Midgard.Model.EllArith
+import Midgard.Generated.EllipsoidArith
 
 namespace Midgard.Props.C05
 open Midgard.Geo
@@ -512,6 +515,79 @@ example : ∃ e ∈ Midgard.Generated.Ellipsoids.table, e.2.fInv = none ∧ 0 < 
 
 end Surface
 
+/-! ## every height: sign of the latitude, longitude, special sets, and the round-trip error in closed form
+
+Helpers in `Proofs/GeoAccuracy.lean`.  `Acc.Mild E` is `a > 0 ∧ 0 ≤ f ≤ 1/3` (all registered ellipsoids, see
+`registered_ellipsoids_mild`); the hypothesis `hdeep` excludes only the ball of radius `e²(1−f)a` (≈ 43 km for the
+Earth, 0 for the sphere) around the centre, where the published one-step scheme is singular. -/
+
+section EveryHeight
+open Midgard.Geo.Acc
+
+/-- every registered ellipsoid satisfies the hypotheses of this section (exact rationals of the regenerated table) -/
+theorem registered_ellipsoids_mild :
+    ∀ r ∈ Midgard.Generated.Ellipsoids.table, 0 < r.2.a ∧ 0 ≤ r.2.f ∧ r.2.f ≤ 1 / 3 := by
+  decide +kernel
+
+/-- numerator and denominator of the one-step latitude are positive at every height -/
+theorem halley_positive (E : Ellipsoid ℝ) (hE : Mild E) (p z : ℝ) (hp : 0 < p) (hz : 0 ≤ z)
+    (hdeep : (E.e2 * (1 - E.f) * E.a) ^ 2 < (1 - E.f) ^ 2 * (p * p) + z * z) :
+    0 < (halley E p z).2 ∧ 0 ≤ (halley E p z).1 ∧ (0 < z → 0 < (halley E p z).1) :=
+  halley_pos E hE p z hp hz hdeep
+
+/-- **southern / northern hemisphere and equator are exact in sign at every height**: the latitude returned by
+`trs2llh` is positive for `z > 0`, negative for `z < 0`, exactly `0` for `z = 0`, and within `[−π/2, π/2]` — pole
+branch and Halley branch alike -/
+theorem lat_sign_every_height (E : Ellipsoid ℝ) (hE : Mild E) (v : V3 ℝ)
+    (hdeep : (E.e2 * (1 - E.f) * E.a) ^ 2 < (1 - E.f) ^ 2 * (v.x * v.x + v.y * v.y) + v.z * v.z) :
+    (0 < v.z → 0 < (trs2llh E v).lat ∧ (trs2llh E v).lat ≤ Real.pi / 2) ∧
+    (v.z < 0 → (trs2llh E v).lat < 0 ∧ -(Real.pi / 2) ≤ (trs2llh E v).lat) ∧
+    (v.z = 0 → (trs2llh E v).lat = 0) :=
+  trs2llh_lat_sign E hE v hdeep
+
+/-- the equatorial plane at every height: latitude `0`, height `p − a` -/
+theorem equator_exact (E : Ellipsoid ℝ) (hE : Mild E) (x y : ℝ)
+    (hoff : ¬ x * x + y * y ≤ E.a * E.a * 1e-32)
+    (hdeep : (E.e2 * (1 - E.f) * E.a) ^ 2 < (1 - E.f) ^ 2 * (x * x + y * y)) :
+    (trs2llh E ⟨x, y, 0⟩).lat = 0 ∧ (trs2llh E ⟨x, y, 0⟩).h = Real.sqrt (x * x + y * y) - E.a :=
+  trs2llh_equator E hE x y hoff hdeep
+
+/-- the ±180° meridian: longitude exactly `π`; and the longitude always lies in `(−π, π]` -/
+theorem meridian180_exact (E : Ellipsoid ℝ) (x z : ℝ) (hx : x < 0) (v : V3 ℝ) :
+    (trs2llh E ⟨x, 0, z⟩).lon = Real.pi ∧ -Real.pi < (trs2llh E v).lon ∧ (trs2llh E v).lon ≤ Real.pi :=
+  ⟨trs2llh_meridian180 E x z hx, trs2llh_lon_range E v⟩
+
+/-- **the longitude of the round trip `llh → trs → llh` is exact at every height** -/
+theorem roundtrip_lon_exact (E : Ellipsoid ℝ) (ha : 0 < E.a) (hf0 : 0 ≤ E.f) (hf1 : E.f < 1) (g : LLH ℝ)
+    (hlon : g.lon ∈ Set.Ioc (-Real.pi) Real.pi) (hcos : 0 < Real.cos g.lat) (hh : -E.a < g.h) :
+    (trs2llh E (llh2trs E g)).lon = g.lon :=
+  roundtrip_lon E ha hf0 hf1 g hlon hcos hh
+
+/-- PARTIAL (accuracy off the surface).  Proved: the round-trip error of the one-step scheme *in closed form* —
+`llh2trs (trs2llh v) − v` is the vector `(x·k, y·k, −c)` whose length is exactly `|R|`,
+`R = tangentialOffset E p z = (z·cc − p·s1)/D + e²·a·s1·cc/(D·W)` with `(s1, cc) = halley E p z`, `D = √(s1²+cc²)`,
+`W = √((1−e²)s1²+cc²)`: the longitude and the height formula contribute no error at all, the whole error is the
+tangential offset caused by the latitude error of the single Halley step.
+Full statement (NOT proved, measured by harness/c05.py against mpmath): `|R| < 1e-6` m for `|h| ≤ 100 km` and
+`|R| < 2e-3` m up to 50 000 km on every ellipsoid with `e² ≤ 0.0067`; it is now a scalar inequality in the two
+variables `(p, z)` over an explicit region. -/
+theorem roundtrip_error_partial (E : Ellipsoid ℝ) (hE : Mild E) (v : V3 ℝ)
+    (hoff : ¬ v.x * v.x + v.y * v.y ≤ E.a * E.a * 1e-32) (hz : 0 < v.z)
+    (hdeep : (E.e2 * (1 - E.f) * E.a) ^ 2 < (1 - E.f) ^ 2 * (v.x * v.x + v.y * v.y) + v.z * v.z) :
+    ∃ k : ℝ, ∃ c : ℝ,
+      llh2trs E (trs2llh E v) = ⟨v.x * (1 + k), v.y * (1 + k), v.z - c⟩ ∧
+      (v.x * k) ^ 2 + (v.y * k) ^ 2 + c ^ 2 = (tangentialOffset E (Real.sqrt (v.x * v.x + v.y * v.y)) v.z) ^ 2 :=
+  roundtrip_residual E hE v hoff hz hdeep
+
+/-- the hypotheses are satisfiable: the unit sphere, the point (1, 0, 1) -/
+example : Mild (⟨1, none⟩ : Ellipsoid ℝ) ∧
+    ((⟨1, none⟩ : Ellipsoid ℝ).e2 * (1 - (⟨1, none⟩ : Ellipsoid ℝ).f) * 1) ^ 2
+      < (1 - (⟨1, none⟩ : Ellipsoid ℝ).f) ^ 2 * ((1:ℝ) * 1 + 0 * 0) + 1 * 1 := by
+  refine ⟨⟨by norm_num, by simp [Ellipsoid.f], by simp [Ellipsoid.f]⟩, ?_⟩
+  simp [Ellipsoid.e2, Ellipsoid.b, Ellipsoid.f]
+
+end EveryHeight
+
 /-! ## the ellipsoid attribute flow -/
 
 section Flow
@@ -595,6 +671,108 @@ theorem ell_flow_midgard (ops : List Op) (p : PosTag) :
   ⟨ell_flow _ sites_forward.1 ops p, conversions_on_creation_ellipsoid _ sites_forward.1 ops p⟩
 
 end Flow
+
+/-! ## arithmetic: which operand a sum / difference takes its ellipsoid from
+
+`Generated/EllipsoidArith.lean` is the `isinstance` chain of every binary operator of the four position classes and
+the factories they call, read off `_position.py` on every run (`translator/extract_c05.py`); `binop` evaluates an
+operation over those tables with Python's operator protocol.  `arith_spec`: for operands of one family the result is
+what the property asks — a position result is on the ellipsoid of the *position operand* in every operand order,
+whatever ellipsoid the difference's `ref_pos` lives on. -/
+
+section Arith
+open Midgard.Generated.EllipsoidArith
+
+theorem arith_spec (plus : Bool) (l r : Operand) :
+    wellTyped l r = true → binop branches factories plus true l r = specBinop plus l r := by
+  rcases l with ⟨⟨lc, le⟩⟩ | ⟨lc, ⟨lrc, lre⟩⟩ <;> rcases r with ⟨⟨rc, re⟩⟩ | ⟨rc, ⟨rrc, rre⟩⟩
+  · cases plus <;> cases lc <;> cases rc <;> (intro h; first | exact Bool.noConfusion h | rfl)
+  · cases plus <;> cases lc <;> cases rc <;> cases rrc <;> (intro h; first | exact Bool.noConfusion h | rfl)
+  · cases plus <;> cases lc <;> cases rc <;> cases lrc <;> (intro h; first | exact Bool.noConfusion h | rfl)
+  · cases plus <;> cases lc <;> cases rc <;> cases lrc <;> cases rrc <;> (intro h; first | exact Bool.noConfusion h | rfl)
+
+theorem arith_other_system (plus : Bool) (l r : Operand) :
+    wellTyped l r = true → binop branches factories plus false l r = .typeError := by
+  rcases l with ⟨⟨lc, le⟩⟩ | ⟨lc, ⟨lrc, lre⟩⟩ <;> rcases r with ⟨⟨rc, re⟩⟩ | ⟨rc, ⟨rrc, rre⟩⟩
+  · cases plus <;> cases lc <;> cases rc <;> (intro h; first | exact Bool.noConfusion h | rfl)
+  · cases plus <;> cases lc <;> cases rc <;> cases rrc <;> (intro h; first | exact Bool.noConfusion h | rfl)
+  · cases plus <;> cases lc <;> cases rc <;> cases lrc <;> (intro h; first | exact Bool.noConfusion h | rfl)
+  · cases plus <;> cases lc <;> cases rc <;> cases lrc <;> cases rrc <;> (intro h; first | exact Bool.noConfusion h | rfl)
+
+/-- `pos ± delta` is a position on the ellipsoid of `pos`, wherever the difference's `ref_pos` lives -/
+theorem pos_pm_delta (plus : Bool) (p : PosPart) (c : ACls) (ref : PosPart)
+    (h : wellTyped (.pos p) (.delta c ref) = true) :
+    binop branches factories plus true (.pos p) (.delta c ref) = .value (.pos p) (.lr plus) := by
+  rw [arith_spec _ _ _ h]; rfl
+
+/-- `delta ± pos` (the difference on the *left*) is a position on the ellipsoid of `pos` -/
+theorem delta_pm_pos (plus : Bool) (p : PosPart) (c : ACls) (ref : PosPart)
+    (h : wellTyped (.delta c ref) (.pos p) = true) :
+    binop branches factories plus true (.delta c ref) (.pos p) = .value (.pos p) (.lr plus) := by
+  rw [arith_spec _ _ _ h]; rfl
+
+/-- `pos − pos` is a difference whose `ref_pos` is the left position (with its ellipsoid); `pos + pos` is a TypeError -/
+theorem pos_minus_pos (p q : PosPart) (h : wellTyped (.pos p) (.pos q) = true) :
+    binop branches factories false true (.pos p) (.pos q) = .value (.delta p.cls.deltaOf p) (.lr false) ∧
+    binop branches factories true true (.pos p) (.pos q) = .typeError := by
+  rw [arith_spec _ _ _ h, arith_spec _ _ _ h]; exact ⟨rfl, rfl⟩
+
+/-- `delta ± delta` refers to what the left difference referred to -/
+theorem delta_pm_delta (plus : Bool) (c d : ACls) (ref ref' : PosPart)
+    (h : wellTyped (.delta c ref) (.delta d ref') = true) :
+    binop branches factories plus true (.delta c ref) (.delta d ref') = .value (.delta d ref) (.lr plus) := by
+  rw [arith_spec _ _ _ h]; rfl
+
+theorem hstep_keeps (sites : List Site) (hs : ∀ s ∈ sites, s.fwd = Fwd.keep) (p : PosTag) (o : HOp) :
+    ∃ q, hstep sites branches factories p o = some q ∧ q.ell = p.ell := by
+  cases o with
+  | un o => exact ⟨_, rfl, step_keeps sites hs p o⟩
+  | withDelta plus deltaLeft ref =>
+    rcases p with ⟨c, e⟩
+    refine ⟨⟨c, e⟩, ?_, rfl⟩
+    simp only [hstep]
+    cases deltaLeft
+    · rw [if_neg (by decide), arith_spec _ _ _ (by cases c <;> rfl)]
+      cases c <;> rfl
+    · rw [if_pos rfl, arith_spec _ _ _ (by cases c <;> rfl)]
+      cases c <;> rfl
+
+/-- **every history keeps the ellipsoid**: through every sequence of conversions / slices / subsets / copies *and*
+sums/differences with differences that refer to positions on arbitrary other ellipsoids, standing on either side,
+a position stays on the ellipsoid it was created with (and no step of such a history fails) -/
+theorem history_keeps_ellipsoid (sites : List Site) (hs : ∀ s ∈ sites, s.fwd = Fwd.keep) :
+    ∀ (ops : List HOp) (p : PosTag), ∃ q, hrun sites branches factories p ops = some q ∧ q.ell = p.ell := by
+  intro ops
+  induction ops with
+  | nil => intro p; exact ⟨p, rfl, rfl⟩
+  | cons o os ih =>
+    intro p
+    obtain ⟨q, hq, he⟩ := hstep_keeps sites hs p o
+    obtain ⟨q', hq', he'⟩ := ih q
+    exact ⟨q', by simp only [hrun, hq, hq'], he'.trans he⟩
+
+/-- … for midgard as it is (tables regenerated from `_position.py`) -/
+theorem history_keeps_ellipsoid_midgard (ops : List HOp) (p : PosTag) :
+    ∃ q, hrun Midgard.Generated.EllipsoidFlow.sites branches factories p ops = some q ∧ q.ell = p.ell :=
+  history_keeps_ellipsoid _ sites_forward.1 ops p
+
+/-- the constructor calls *outside* `_position.py` (fieldtypes `_prepend_empty` / `_append_empty`, dataset, math — table
+regenerated on every run): none builds a position from a position without forwarding `ellipsoid`, and the fieldtype
+sites are there (the table is not vacuous) -/
+theorem external_sites_forward :
+    (∀ s ∈ externalSites, s.2.2 = ExtFwd.keep ∨ s.2.2 = ExtFwd.fresh) ∧
+    (externalSites.filter (fun s => s.2.2 == ExtFwd.keep)).length ≥ 4 := by
+  decide +kernel
+
+/-- `x += d`, `x -= d` are `x + d`, `x - d` (PosBase) -/
+theorem inplace_delegates : inplaceDelegates = true := by decide
+
+/-- the hypotheses are satisfiable: a position on ellipsoid 1 and a difference that refers to a position on ellipsoid 6 -/
+example : wellTyped (.pos ⟨.position, some 1⟩) (.delta .posDelta ⟨.position, some 6⟩) = true ∧
+    binop branches factories true true (.delta .posDelta ⟨.position, some 6⟩) (.pos ⟨.position, some 1⟩)
+      = .value (.pos ⟨.position, some 1⟩) (.lr true) := by decide
+
+end Arith
 
 
 /-! ### The model is the source (regenerated on every run)
@@ -688,3 +866,21 @@ end Midgard.Props.C05
 #print axioms Midgard.Props.C05.halley_exact_on_sphere
 #print axioms Midgard.Props.C05.sphere_roundtrip
 #print axioms Midgard.Props.C05.surface_roundtrip
+#print axioms Midgard.Props.C05.arith_spec
+#print axioms Midgard.Props.C05.arith_other_system
+#print axioms Midgard.Props.C05.pos_pm_delta
+#print axioms Midgard.Props.C05.delta_pm_pos
+#print axioms Midgard.Props.C05.pos_minus_pos
+#print axioms Midgard.Props.C05.delta_pm_delta
+#print axioms Midgard.Props.C05.hstep_keeps
+#print axioms Midgard.Props.C05.history_keeps_ellipsoid
+#print axioms Midgard.Props.C05.history_keeps_ellipsoid_midgard
+#print axioms Midgard.Props.C05.inplace_delegates
+#print axioms Midgard.Props.C05.registered_ellipsoids_mild
+#print axioms Midgard.Props.C05.halley_positive
+#print axioms Midgard.Props.C05.lat_sign_every_height
+#print axioms Midgard.Props.C05.equator_exact
+#print axioms Midgard.Props.C05.meridian180_exact
+#print axioms Midgard.Props.C05.roundtrip_lon_exact
+#print axioms Midgard.Props.C05.roundtrip_error_partial
+#print axioms Midgard.Props.C05.external_sites_forward
